@@ -3,6 +3,7 @@
 from __future__ import annotations
 
 import copy
+import json
 import os
 import shutil
 import subprocess
@@ -94,6 +95,97 @@ def _seed_run(args):
     return json.loads(p.stdout.split("@@")[1])
 
 
+COLD_DRIVER = r'''
+import builtins, json, os, sys, threading
+sys.path.insert(0, sys.argv[1]); sys.path.insert(0, sys.argv[2])
+from harness import procsim
+import pyxform
+from pyxform.xls2xform import convert
+forms = json.loads(sys.stdin.read()); k = int(sys.argv[3])
+pkg = os.path.dirname(pyxform.__file__)
+real_open = builtins.open
+count = {"n": 0}; reached = threading.Event(); gate = threading.Event()
+def patched(file, *a, **kw):
+    # thread A is descheduled at its k-th read of a data file of the package (a blocking call: the interpreter lock is released there)
+    if threading.current_thread().name == "A" and str(file).startswith(pkg) and not str(file).endswith((".py", ".pyc")):
+        count["n"] += 1
+        if count["n"] == k:
+            reached.set(); gate.wait(60)
+    return real_open(file, *a, **kw)
+builtins.open = patched
+out = {}
+def work(name, f):
+    try:
+        r = convert(xlsform=forms[f], validate=False, pretty_print=False)
+        out[name] = procsim.digest(r.xform, r.warnings, r.itemsets)
+    except Exception as e:
+        out[name] = "error:" + type(e).__name__ + ":" + str(e)[:80]
+ta = threading.Thread(target=work, args=("A", sys.argv[4]), name="A"); ta.start()
+hit = reached.wait(30)
+tb = threading.Thread(target=work, args=("B", sys.argv[5]), name="B"); tb.start(); tb.join(60)
+gate.set(); ta.join(60)
+print("@@" + json.dumps({"out": out, "paused": hit}))
+'''
+
+
+def cold_forms():
+    """forms whose first conversion in a process loads package data lazily (language subtag lists), with 2-letter and longer subtags, known and unknown"""
+    c1 = """| survey |
+| | type | name | label::Filipino (fil) | label::English (en) | hint::Cebuano (ceb) |
+| | text | q1 | Q1 fil | Q1 en | h ceb |
+| | integer | q2 | Q2 fil | Q2 en | |
+"""
+    c2 = """| survey |
+| | type | name | label::French (fr) | label::Klingon (tlh) | label::Nolang (zzzz) |
+| | text | q1 | Q1 fr | Q1 tlh | Q1 zz |
+"""
+    return {"c1": c1, "c2": c2}
+
+
+def twin_forms():
+    """pairs of forms that agree in every name and path but differ in structure or content: whatever is remembered about one must not
+    answer a question about the other"""
+    head = "| survey |\n| | type | name | label | calculation |\n"
+    ta = head + "| | begin repeat | r1 | R1 | |\n| | begin group | g1 | G1 | |\n| | text | a | A | |\n| | end group | | | |\n| | begin group | g2 | G2 | |\n| | calculate | b | | ${a} + 1 |\n| | end group | | | |\n| | end repeat | | | |\n"
+    tb = head + "| | begin repeat | r1 | R1 | |\n| | begin repeat | g1 | G1 | |\n| | text | a | A | |\n| | end repeat | | | |\n| | begin group | g2 | G2 | |\n| | calculate | b | | ${a} + 1 |\n| | end group | | | |\n| | end repeat | | | |\n"
+    tc = "| survey |\n| | type | name | label |\n| | select_one L | s | S ${s} |\n| choices |\n| | list_name | name | label |\n| | L | x | X one |\n| | L | y | Y |\n"
+    td = "| survey |\n| | type | name | label |\n| | select_one L | s | S ${s} |\n| choices |\n| | list_name | name | label |\n| | L | x | X other |\n"
+    return [("group_or_repeat", {"tA": ta, "tB": tb}), ("same_list_other_choices", {"tC": tc, "tD": td})]
+
+
+def _cold_and_twins(repo, quick):
+    """-> list of fact events"""
+    from harness import procsim
+
+    facts = []
+    cf = cold_forms()
+    canon = {k: procsim.canon({k: v}, repo)[k][0] for k, v in cf.items()}        # each in an interpreter of its own
+    env = dict(os.environ, PYTHONHASHSEED="0", PYTHONPATH=repo)
+    env.pop("PYXFORM_VERIF", None)
+    paused = 0
+    for a in cf:
+        for b in cf:
+            for k in (1, 2):
+                p = subprocess.run([sys.executable, "-c", COLD_DRIVER, repo, "/verif", str(k), a, b], input=json.dumps(cf), env=env, capture_output=True, text=True, timeout=300)
+                if "@@" not in p.stdout:
+                    raise tlc.MachineryError("cold-start driver failed: " + p.stderr[-400:])
+                o = json.loads(p.stdout.split("@@")[1])
+                paused += bool(o["paused"])
+                for t, f in (("A", a), ("B", b)):
+                    facts.append({"ev": "fact", "digest": o["out"].get(t, "error:no result"), "canon": canon[f],
+                                  "what": f"cold start: thread A ({a}) descheduled at its read #{k} of a package data file while thread B ({b}) converts; result of {t}"})
+    if paused == 0:
+        raise tlc.MachineryError("cold-start schedules: thread A never reached a package data file read")
+    for name, pair in twin_forms():
+        can = {k: procsim.canon({k: v}, repo)[k][0] for k, v in pair.items()}
+        ks = list(pair)
+        for order in (ks, ks[::-1], ks + ks[::-1]):
+            res = procsim.canon({f"{i}:{k}": pair[k] for i, k in enumerate(order)}, repo)
+            for key, v in res.items():
+                facts.append({"ev": "fact", "digest": v[0], "canon": can[key.split(":")[1]], "what": f"twin forms {name}: batch order {order}, result of {key}"})
+    return facts
+
+
 def _free_running(forms, canon, nthreads, rounds):
     from pyxform.xls2xform import convert
 
@@ -158,6 +250,10 @@ def run(rep):
     # free-running threads
     fr = _free_running(forms, canon, 8, 6 if rep.tier == "quick" else 40)
     traces.append([{"ev": "fact", "digest": d, "canon": canon[f][0], "what": "free-running"} for f, d in fr])
+    # cold start (first use of lazily loaded package data with another thread running) and twin forms (same names, other structure)
+    cold = _cold_and_twins(repo, rep.tier == "quick")
+    traces.append(cold)
+    rep.bounds["cold_start_and_twins"] = {"facts": len(cold)}
     # hash-seed sweep
     shapes, g = corpus.gen_shapes("ok", 4)
     nforms = 40 if rep.tier == "quick" else 300
@@ -189,7 +285,8 @@ def run(rep):
             continue
         l, clause = info["progress"].get(i, (0, "unexplained_event"))
         ev = t[l - 1] if 0 < l <= len(t) else {}
-        kind = "history" if ev.get("ev") == "step" else ("path" if "path pair" in str(ev.get("what")) else "seed" if "seed" in str(ev.get("what")) else "threads")
+        kind = "history" if ev.get("ev") == "step" else ("path" if "path pair" in str(ev.get("what")) else "cold_start" if "cold start" in str(ev.get("what")) else
+                                                          "twins" if "twin forms" in str(ev.get("what")) else "seed" if "seed" in str(ev.get("what")) else "threads")
         which = ""
         if kind == "seed":
             idx = int(str(ev["what"]).split("form ")[1].split()[0])
